@@ -1,5 +1,6 @@
 import RSocketModel.Credit
 import RSocketModel.Engine.Step
+import RSocketModel.Proofs.CollectorLemmas
 /-!
 # C06 — Request-n flow control: emission never exceeds granted credit
 -/
@@ -220,3 +221,96 @@ theorem c06_credit_forwarded_exact (st : Engine.State) (hc : st.closed = false) 
         Engine.State.emit]
 
 end RSocketModel.Credit
+
+/-! ### the library's own awaitable requester (`CollectorSubscriber`, behind `AwaitableRSocket`) -/
+namespace RSocketModel.Collector
+
+/-- every REQUEST_N the collector causes carries exactly the configured limit rate -/
+theorem c06_collector_requests_exactly_limit (L : Nat) (C : Option Nat) (evs : List Ev) :
+    ∀ (s : St) (n : Nat), Out.request n ∈ (run L C s evs).2 → n = L := by
+  induction evs with
+  | nil => intro s n h; simp [run] at h
+  | cons e r ih =>
+    intro s n h
+    simp only [run, List.mem_append] at h
+    rcases h with h | h
+    · cases e <;> simp only [step] at h <;> (repeat' split at h) <;> simp at h
+      exact h
+    · exact ih _ n h
+
+/-- **the credit window**: subscribed with `initial_request_n(L)`, while unflagged elements arrive
+and the count limit is not reached, the credit outstanding at the peer (the initial `L` plus every
+REQUEST_N sent, minus the elements received) is never more than `L` and never zero: the collector
+neither exceeds its limit rate nor lets the stream run dry -/
+theorem c06_collector_credit_window (L : Nat) (hL : 1 ≤ L) (k : Nat) :
+    let r := run L none {} (List.replicate k (.next false))
+    r.1.total = k ∧ 1 ≤ L + granted r.2 - k ∧ L + granted r.2 - k ≤ L := by
+  have gen : ∀ (k : Nat) (s : St) (g : Nat), Inv L g s →
+      Inv L (g + granted (run L none s (List.replicate k (.next false))).2) (run L none s (List.replicate k (.next false))).1 ∧
+      (run L none s (List.replicate k (.next false))).1.total = s.total + k := by
+    intro k
+    induction k with
+    | zero => intro s g h; simpa [run, granted] using h
+    | succ k ih =>
+      intro s g h
+      simp only [List.replicate_succ, run, granted_append]
+      rcases inv_step L none g s (.next false) h with h1 | ⟨c, hc, hcc⟩
+      · have := ih _ _ h1
+        refine ⟨by simpa [Nat.add_assoc] using this.1, ?_⟩
+        rw [this.2]
+        simp only [step, Bool.false_eq_true, if_false, reduceCtorEq]
+        split <;> simp <;> omega
+      · cases hc
+        rcases hcc with hcc | hcc <;> simp at hcc
+  have h0 : Inv L 0 ({} : St) := by simp only [Inv]; omega
+  obtain ⟨⟨h1, h2⟩, h3⟩ := gen k {} 0 h0
+  simp only [Nat.zero_add] at h1 h2 h3
+  refine ⟨h3, ?_, ?_⟩ <;> omega
+
+/-- with a count limit `c ≥ 1` the collector cancels exactly when the `c`-th element arrives (and
+not before), and resolves the awaitable -/
+theorem c06_collector_cancels_at_count (L c : Nat) (hc : 1 ≤ c) :
+    let r := run L (some c) {} (List.replicate c (.next false))
+    r.1.done = true ∧ r.2.getLast? = some .cancel ∧
+    (∀ k, k < c → Out.cancel ∉ (run L (some c) {} (List.replicate k (.next false))).2 ∧
+      (run L (some c) {} (List.replicate k (.next false))).1.done = false) := by
+  have gen : ∀ (k : Nat) (s : St), s.done = false → s.total + k < c →
+      Out.cancel ∉ (run L (some c) s (List.replicate k (.next false))).2 ∧
+      (run L (some c) s (List.replicate k (.next false))).1.done = false ∧
+      (run L (some c) s (List.replicate k (.next false))).1.total = s.total + k := by
+    intro k
+    induction k with
+    | zero => intro s hd _; simp [run, hd]
+    | succ k ih =>
+      intro s hd hlt
+      simp only [List.replicate_succ, run, List.mem_append, not_or]
+      have hne : ¬ (some c = some (s.total + 1)) := by simp; omega
+      have hstep : (step L (some c) s (.next false)).1.done = false ∧ (step L (some c) s (.next false)).1.total = s.total + 1 ∧
+          Out.cancel ∉ (step L (some c) s (.next false)).2 := by
+        simp only [step, Bool.false_eq_true, if_false, hne]
+        split <;> simp [hd]
+      obtain ⟨h1, h2, h3⟩ := hstep
+      have := ih _ h1 (by rw [h2]; omega)
+      refine ⟨⟨h3, this.1⟩, this.2.1, ?_⟩
+      rw [this.2.2, h2]; omega
+  have last : ∀ c', c = c' + 1 →
+      (run L (some c) {} (List.replicate c (.next false))).1.done = true ∧
+      (run L (some c) {} (List.replicate c (.next false))).2.getLast? = some .cancel := by
+    intro c' hcc
+    subst hcc
+    have hg := gen c' {} rfl (by simp)
+    rw [List.replicate_succ', run_append]
+    have hs : step L (some (c' + 1)) (run L (some (c' + 1)) {} (List.replicate c' (.next false))).1 (.next false) =
+        ({ (run L (some (c' + 1)) {} (List.replicate c' (.next false))).1 with
+            recv := (run L (some (c' + 1)) {} (List.replicate c' (.next false))).1.recv + 1,
+            total := (run L (some (c' + 1)) {} (List.replicate c' (.next false))).1.total + 1, done := true }, [.cancel]) := by
+      simp only [step, Bool.false_eq_true, if_false, hg.2.2]
+      simp
+    simp only [run, hs, List.append_nil]
+    exact ⟨trivial, by simp⟩
+  refine ⟨(last (c - 1) (by omega)).1, (last (c - 1) (by omega)).2, ?_⟩
+  · intro k hk
+    have := gen k {} rfl (by simpa using hk)
+    exact ⟨this.1, this.2.1⟩
+
+end RSocketModel.Collector
